@@ -465,24 +465,24 @@ Proof.
   set (result := if hasres then hd VNon (stack m) else VNon).
   set (st1 := if hasres then tl (stack m) else stack m).
   set (n := length st1 - fbase f).
+  set (cl := match fclos f with Some c => [c] | None => [] end).
   assert (ST: forall x, cnt x (refs (stack m)) = cnt x (vref result) + cnt x (refs st1)).
   { intros x. unfold result, st1. destruct hasres.
     - destruct (stack m); simpl; cn; lia.
     - cn. lia. }
   destruct I as [W P].
   set (m1 := M (result :: skipn n st1) (globals m) fs (regs m) (hp m)).
-  assert (P1: PInv (hp m) (roots m1) (refs (firstn n st1))).
+  assert (P1: PInv (hp m) (roots m1) (refs (firstn n st1) ++ cl)).
   { intros x. specialize (P x). rewrite !roots_cnt in *. unfold m1. cbn [stack globals frames regs] in *.
-    rewrite Hf, frame_refs_cons in P. specialize (ST x). pose proof (cnt_refs_firstn_skipn x n st1). cn. lia. }
+    rewrite Hf, frame_refs_cons in P. fold cl in P. specialize (ST x). pose proof (cnt_refs_firstn_skipn x n st1). cn. lia. }
   destruct (release_list_ok _ _ _ W P1) as [h' [Rl [W' [C Mo]]]].
   right. exists (M (result :: skipn n st1) (globals m) fs (regs m) h').
-  split. { simpl. rewrite Hf. fold hasres. fold result. fold st1. fold n. rewrite Rl. reflexivity. }
+  split. { simpl. rewrite Hf. fold hasres. fold result. fold st1. fold n. fold cl. rewrite Rl. reflexivity. }
   split; auto.
-  split. { intros x. iu. rewrite Hf, frame_refs_cons. specialize (C x). specialize (ST x).
-           pose proof (cnt_refs_firstn_skipn x n st1). cn. lia. }
-  split. { simpl. rewrite Hf. destruct (fclos f) eqn:Fc; try discriminate. intros _ x. iu. rewrite Hf, frame_refs_cons, Fc.
-           specialize (C x). specialize (ST x). pose proof (cnt_refs_firstn_skipn x n st1). cn. lia. }
-  auto.
+  assert (E: excess_eq m (M (result :: skipn n st1) (globals m) fs (regs m) h')).
+  { intros x. iu. rewrite Hf, frame_refs_cons. fold cl. specialize (C x). specialize (ST x).
+    pose proof (cnt_refs_firstn_skipn x n st1). cn. lia. }
+  split. apply excess_eq_le; auto. split; auto.
 Qed.
 
 (* ------------------------------------------------------------------ all micro-ops *)
